@@ -32,7 +32,7 @@ CLAIMS = {
         text="Coq theorems: best_match's answer is None iff neither matches, else a matching argument such that no matching candidate is strictly better under (higher dewey version, then byte-wise smaller name); argument order is irrelevant; the both-match choice is the minimum of a total order (antisymmetry, transitivity proved from C03), so pairwise reduction over ANY tree is invariant under every permutation and association of the candidates (C06_reduce_any_tree) and returns a best matching candidate (C06_reduction_winner). Correspondence each run: every ordered pair of candidate lists through best_match vs the model; permutations / folds recomputed from the implementation's own pairwise answers.",
         ref="§7 C06", note=TB, technique="Coq proof (total order + associativity/commutativity, Permutation) + differential correspondence + law oracle"),
     "C07": dict(
-        text="Coq theorems over ALL entries (functions from the 23 variables to values): for every complete, well-kinded entry whose values have no CR/LF (sizes any i64, line lists non-empty) parse(print e) succeeds and returns the same value for each of the 23 variables, and printing that result reproduces the text byte for byte; the printed form is a function of the current values only, so any two call histories with equal final values print identically; every API call sequence preserves well-kindedness (no setter/pusher/getter panics); the 23 names are a bijection; 'canonical text' is also stated on the text alone (executable predicate is_canonical) and every such text is proved to parse and print back byte for byte, every generated text being of that form (op sum.canon compares the predicate with the implementation's own parse-and-print verdict on printed texts and 21 one-edit neighbours of each). The HashMap of the implementation is abstracted as a function - what the abstraction hides (iteration order, RandomState) is exercised each run by building every entry through two different call histories and comparing print + all getters + re-parse with the model.",
+        text="Coq theorems over ALL entries (functions from the 23 variables to values): for every complete, well-kinded entry whose values have no CR/LF (sizes any i64, line lists non-empty) parse(print e) succeeds and returns the same value for each of the 23 variables, and printing that result reproduces the text byte for byte; the printed form is a function of the current values only, so any two call histories with equal final values print identically; every API call sequence preserves well-kindedness (no setter/pusher/getter panics); the 23 names are a bijection; 'canonical text' is also stated on the text alone (executable predicate is_canonical) and is proved to decide EXACTLY the texts that parse and print back byte for byte (C07_canonical_text_iff, both directions, arbitrary texts), every generated text being of that form (op sum.canon compares the predicate with the implementation's own parse-and-print verdict on printed texts and 21 one-edit neighbours of each). The HashMap of the implementation is abstracted as a function - what the abstraction hides (iteration order, RandomState) is exercised each run by building every entry through two different call histories and comparing print + all getters + re-parse with the model.",
         ref="§7 C07", note=TB + " str::lines, splitn(2,'='), i64 FromStr/Display are modelled (Dec.v proves the i64 print/parse round trip).",
         technique="Coq proof (fold invariant over lines; i64 decimal round trip) + model/implementation differential correspondence + history oracle"),
     "C08": dict(
